@@ -43,7 +43,9 @@ func (ex *Exec) funcEnv(fr *Frame, st *State) *SpecEnv {
 			top.logical = map[*types.Var]Val{}
 		}
 		if _, ok := top.logical[lv]; !ok {
-			top.logical[lv] = Fresh("logical."+lv.Name(), leafSort(lv.Type()))
+			var fs []*Term
+			top.logical[lv] = freshVal(lv.Type(), "logical."+lv.Name(), &fs)
+			ex.addFacts(nil, fs)
 		}
 		env.objs[lv] = top.logical[lv]
 	}
@@ -93,6 +95,7 @@ func (ex *Exec) effectsOf(fr *Frame, blocks map[*ssa.BasicBlock]bool) *loopEffec
 		ef.arrays[mlenName] = mlenSort
 	}
 	var scanFn func(fn *ssa.Function, blocks map[*ssa.BasicBlock]bool, depth int)
+	var curSite ssa.Instruction
 	scanCall := func(c *ssa.CallCommon, depth int) {
 		if b, ok := c.Value.(*ssa.Builtin); ok {
 			switch b.Name() {
@@ -136,6 +139,14 @@ func (ex *Exec) effectsOf(fr *Frame, blocks map[*ssa.BasicBlock]bool) *loopEffec
 			fn = v.Fn.(*ssa.Function)
 		}
 		if fn == nil {
+			if top := fr.topFrame(); top.con != nil && curSite != nil {
+				txt := ex.prog.callFunText(curSite.Pos())
+				for _, a := range top.con.AssumePure {
+					if a == txt {
+						return
+					}
+				}
+			}
 			ef.heapAll = true
 			ef.why = append(ef.why, "call through function value")
 			return
@@ -187,8 +198,10 @@ func (ex *Exec) effectsOf(fr *Frame, blocks map[*ssa.BasicBlock]bool) *loopEffec
 				case *ssa.MapUpdate:
 					addMap(x.Map.Type().Underlying().(*types.Map))
 				case *ssa.Call:
+					curSite = x
 					scanCall(&x.Call, depth)
 				case *ssa.Defer:
+					curSite = x
 					scanCall(&x.Call, depth)
 				case *ssa.Go:
 					ef.heapAll = true
@@ -249,11 +262,16 @@ func (ex *Exec) enterLoop(fr *Frame, h *ssa.BasicBlock, in *State) *State {
 			}
 		}
 	}
-	pre := in
 	if spec != nil && len(spec.Modifies) > 0 {
-		env := ex.loopEnv(fr, h, pre)
+		// Frame items are evaluated both on loop entry and at the (arbitrary) iteration's head, i.e.
+		// with the loop-variant locals already havoced: `result[*]` covers the elements of whatever
+		// array `result` points to in this iteration.
+		envIn := ex.loopEnv(fr, h, in)
+		preCells := st.clone()
+		envHead := ex.loopEnv(fr, h, preCells)
 		for _, m := range spec.Modifies {
-			ex.havocLvalue(st, env, m.Text)
+			ex.havocLvalue(st, envIn, m.Text)
+			ex.havocLvalue(st, envHead, m.Text)
 		}
 	} else if ef.heapAll {
 		if ex.spec == 0 {
